@@ -119,7 +119,7 @@ PROPS = {
     },
     "C13": {
         "lean": ["Stackage.Props.C13", "Stackage.Props.C06"],
-        "streams": [{"name": "nest", "quick": 3000, "thorough": 60000}, {"name": "condhist", "quick": 2000, "thorough": 40000}],
+        "streams": [{"name": "nest", "quick": 3000, "thorough": 60000}, {"name": "condhist", "quick": 2000, "thorough": 40000}, {"name": "sealpol", "quick": 800, "thorough": 16000}],
         "rule": "push batches mixing stacks, aliases (with/without String), pointers to aliases, zero-valued instances, Conditions, nil and primitives, "
                 "interleaved with switching no-nesting on/off, on every kind; content, CanNest and IsNesting compared after every step",
         "modelled": COMMON_MODELLED,
